@@ -209,7 +209,10 @@ def observe(c):
         import gambatools.nfa_algorithms as A
         N = conv.nfa_obj(x)
         N2 = conv.nfa_obj(c['N2'])
-        snap = lambda: [conv.nfa_case(N), conv.nfa_case(N2)]
+        # the snapshot includes the KEYS of the transition table (an entry with an empty target set is visible in str(N) and in a dict the
+        # caller passed in): a lookup that inserts entries changes the argument
+        keys = lambda n: sorted([list(k) for k in n.delta.keys()])
+        snap = lambda: [conv.nfa_case(N), conv.nfa_case(N2), keys(N), keys(N2)]
         sibling['obj'] = conv.nfa_obj(dict(x, F=[q for q in x['Q'] if q not in x['F']]))
         extra['acc'] = [probe('accepts:' + w, lambda w=w: A.nfa_accepts_word(N, w), bool, snap, on=lambda n, w=w: A.nfa_accepts_word(n, w)) for w in c['ws']]
         w = probe('words', lambda: A.nfa_words_up_to_n(N, 3), sorted, snap, on=lambda n: A.nfa_words_up_to_n(n, 3))
